@@ -17,8 +17,8 @@ PROFILE = {"w_switch": 0, "w_try": 0, "objects": False, "interp": False, "top_mi
 def templates(rng, n):
     """hand-shaped statements aimed at each pass's trigger (parametrised, seeded)"""
     k = rng.randrange(3, 7)
-    a, b, c = rng.randrange(0, 5), rng.randrange(1, 9), rng.randrange(0, 100)
-    cmp_ = rng.choice(["<", "<", "<=", "!=", ">"])
+    a, b, c = rng.randrange(0, 3), rng.randrange(1, 9), rng.randrange(0, 100)
+    cmp_ = rng.choice(["<", "<", "<=", "!="])
     step = rng.choice(["++i{n}", "++i{n}", "++i{n}", "i{n} += 1", "i{n} = i{n} + 1"])
     lo = rng.choice(["0", "0", "1", "0l", "0u", "a{n}"])
     hi = rng.choice([str(k), str(k), "%dl" % k, "%du" % k, "b{n}", "%d + 1" % (k - 1)])
@@ -28,6 +28,13 @@ def templates(rng, n):
         "for (f : fs{n}) {{ print(f()) }}\nprint(fs{n}.size())",
         # closure capturing the loop variable by an alias
         "var gs{n} = []\nfor (var i{n} = 0; i{n} < {k}; ++i{n}) {{\n  var &al{n} = i{n}\n  gs{n}.push_back(fun[al{n}]() {{ al{n} }})\n}}\nprint(gs{n}[0]())\nprint(gs{n}[{km1}]())",
+        # loops that only resemble the canonical counted loop: the condition tests another variable / the step moves another variable /
+        # the bounds are variables or non-int constants / the comparison is not '<'
+        "var other{n} = 0\nvar cnt{n} = 0\nfor (var i{n} = 0; other{n} < {k}; ++i{n}) {{\n  other{n} += 2\n  ++cnt{n}\n}}\nprint(cnt{n})\nprint(other{n})",
+        "var j{n} = 0\nvar cnt{n} = 0\nfor (var i{n} = 0; i{n} < {k}; ++j{n}) {{\n  i{n} += 1\n  ++cnt{n}\n  if (cnt{n} > 20) {{ break }}\n}}\nprint(cnt{n})\nprint(j{n})",
+        "var lim{n} = {k}\nvar cnt{n} = 0\nfor (var i{n} = 0; i{n} < lim{n}; ++i{n}) {{\n  if (i{n} == 1) {{ lim{n} = lim{n} - 1 }}\n  ++cnt{n}\n}}\nprint(cnt{n})",
+        "var cnt{n} = 0\nfor (var i{n} = {k}; i{n} > 0; --i{n}) {{ ++cnt{n} }}\nfor (var i{n} = 0; i{n} <= {k}; ++i{n}) {{ ++cnt{n} }}\nfor (var i{n} = 0; {k} > i{n}; ++i{n}) {{ ++cnt{n} }}\nprint(cnt{n})",
+        "var cnt{n} = 0\nfor (var i{n} = 0.0; i{n} < {k}; ++i{n}) {{ ++cnt{n} }}\nfor (var i{n} = 0; i{n} < {k}.5; ++i{n}) {{ ++cnt{n} }}\nfor (auto i{n} = 0; i{n} < {k}; ++i{n}) {{ ++cnt{n} }}\nprint(cnt{n})",
         # counter modified in the body
         "for (var i{n} = 0; i{n} < {k}; ++i{n}) {{\n  if (i{n} == 1) {{ i{n} += 1 }}\n  print(i{n})\n}}",
         # body shadows the counter / declares variables / breaks / continues
